@@ -32,7 +32,7 @@ CONSTANTS
     MaxCalls,       \* length bound of a call history
     Mode            \* "mc" exhaustive histories | "sim" random histories with emission |
                     \* "all" exhaustive histories of exactly MaxCalls calls with emission |
-                    \* "table" probe table | "schemas" schema table
+                    \* "table" probe table and schema table
 
 (* Structure extracted from the schemas of the current tree (harness/versions.py), handed over as   *)
 (* one JSON file (a cfg file cannot hold tuples):                                                    *)
@@ -250,5 +250,5 @@ EmitTable == Mode = "table" => \A d \in DocRecs : PrintT(ToJson(RowsOf(d)))
 \* schema table: for every schema name x version, the annotated entries the versioned schema must
 \* not hold, and the annotated defaults create() must give
 SchemaRows(n) == {[name |-> n, v |-> v, absent |-> Absent(n, v), defaults |-> DefaultsOf(n, v)] : v \in VersionsN}
-EmitSchemas == Mode = "schemas" => \A n \in Names : PrintT(ToJson(SchemaRows(n)))
+EmitSchemas == Mode = "table" => \A n \in Names : PrintT(ToJson(SchemaRows(n)))
 =============================================================================
